@@ -81,6 +81,9 @@ def mutants(rng, text):
     if uses:
         k, m = rng.choice(uses)
         out.append(("undefined-ref", with_line(k, lines[k][:m.start()] + b"!987654" + lines[k][m.end():])))
+    if uses:
+        k, m = rng.choice(uses)
+        out.append(("ref-leading-zeros", with_line(k, lines[k][:m.start()] + b"!" + rng.choice([b"0", b"00", b"000"]) + m.group(1) + lines[k][m.end():])))
     if len(dl) >= 2:
         a, b = rng.sample(dl, 2)
         ida = re.match(rb"!(\d+)", lines[a]).group(0)
